@@ -28,12 +28,33 @@ class MonEvent(Event):
         if ctx is not None:
             env._mon.capture(ctx, self)
 
+    # the grant hook lives on simpy's own Event.succeed (patched once, see install_succeed_hook): a store that creates its
+    # tokens with simpy.Event(env) instead of env.event() is observed just the same
+
+
+_hooked = False
+
+
+def install_succeed_hook():
+    """Class-level wrapper of simpy.events.Event.succeed: reports the grant of every event that carries a token record."""
+    global _hooked
+    if _hooked:
+        return
+    _hooked = True
+    orig = Event.succeed
+
     def succeed(self, value=None):
-        r = Event.succeed(self, value)
-        mon = self.env._mon
-        if mon is not None:
-            mon.on_succeed(self)
+        r = orig(self, value)
+        if getattr(self, "_m", None) is not None:
+            mon = getattr(self.env, "_mon", None)
+            if mon is not None:
+                mon.on_succeed(self)
         return r
+    succeed._fsmon = True
+    Event.succeed = succeed
+
+
+install_succeed_hook()
 
 
 class MonProcess(Process):
